@@ -401,7 +401,9 @@ func lex(s string) ([]tok, error) {
 	return out, nil
 }
 
-func isAlpha(c byte) bool { return c == '_' || c == '$' || (c >= 'a' && c <= 'z') || (c >= 'A' && c <= 'Z') }
+func isAlpha(c byte) bool {
+	return c == '_' || c == '$' || (c >= 'a' && c <= 'z') || (c >= 'A' && c <= 'Z')
+}
 func isAlnum(c byte) bool { return isAlpha(c) || (c >= '0' && c <= '9') }
 
 type parser struct {
